@@ -484,7 +484,7 @@ struct Counters {
   uint64_t evals = 0, accept = 0, reject = 0, order_dependent_skipped = 0, order_dependent_first_fit_asserted = 0, overlapping_asserted = 0, non_overlapping = 0;
   uint64_t by_rm[M_COUNT] = {}, by_form[F_COUNT] = {}, by_kind[K_COUNT] = {};
   uint64_t nt_dup_range = 0, nt_dup_list = 0, nt_len_off_by_one = 0, nt_empty_side = 0, nontrivial = 0;
-  uint64_t batches = 0, form_unavailable = 0, excluded_perm_single = 0;
+  uint64_t batches = 0, form_unavailable = 0, excluded_perm_single = 0, mixed_element_type_cases = 0;
 } CN;
 
 struct Batch {
@@ -642,6 +642,7 @@ void flush_counters() {
   ST.label("nontrivial_length_off_by_one", CN.nt_len_off_by_one);
   ST.label("nontrivial_empty_side", CN.nt_empty_side);
   if (CN.form_unavailable) ST.label("spelling_not_available_for_case", CN.form_unavailable);
+  if (CN.mixed_element_type_cases) ST.label("collection_with_another_element_type", CN.mixed_element_type_cases);
   if (CN.excluded_perm_single) ST.label("excluded_by_finding_single_element_range_is_permutation_does_not_compile", CN.excluded_perm_single);
   ST.extra_json["x_order_dependent_skipped"] = std::to_string(CN.order_dependent_skipped);
 }
@@ -797,6 +798,77 @@ Batch gen_batch() {
 // =====================================================================================================
 // 7. Replay
 // =====================================================================================================
+// ---- collection forms whose element type differs from the range's element type --------------------------------------
+// "element-wise matches" are decided by r[i] == e[j] with the usual arithmetic conversions; an expected 2.5 is not the
+// member 2, an expected 257 not the unsigned char 1. Exhaustive over small pools; replay line: `mixed <pair> <case>`.
+#pragma GCC diagnostic push
+#pragma GCC diagnostic ignored "-Wsign-compare"
+#pragma GCC diagnostic ignored "-Wfloat-equal"
+template <typename RT, typename ET>
+static bool mixed_ref(int rm, const std::vector<RT>& r, const std::vector<ET>& e) {
+  auto eq = [](const RT& a, const ET& b) { return a == b; };
+  switch (rm) {
+    case M_IS: if (r.size() != e.size()) return false; for (size_t i = 0; i < r.size(); ++i) if (!eq(r[i], e[i])) return false; return true;
+    case M_STARTS: if (r.size() < e.size()) return false; for (size_t i = 0; i < e.size(); ++i) if (!eq(r[i], e[i])) return false; return true;
+    case M_ENDS: if (r.size() < e.size()) return false; for (size_t i = 0; i < e.size(); ++i) if (!eq(r[r.size() - e.size() + i], e[i])) return false; return true;
+    default: {  // includes / permutation: equality is exact here, so any assignment strategy gives the same answer
+      std::vector<bool> used(r.size(), false);
+      for (auto& x : e) { bool f = false; for (size_t i = 0; i < r.size() && !f; ++i) if (!used[i] && eq(r[i], x)) { used[i] = true; f = true; } if (!f) return false; }
+      return rm == M_INCLUDES || r.size() == e.size();
+    }
+  }
+}
+template <typename RT, typename ET>
+static bool mixed_pair(int pair_id, const std::vector<RT>& rpool, const std::vector<ET>& epool, const char* rn, const char* en, std::string& why, int only_pair, long only_case) {
+  if (only_pair >= 0 && only_pair != pair_id) return true;
+  long id = 0;
+  auto lists = [](auto& pool, auto f) {
+    using T = std::decay_t<decltype(pool[0])>;
+    f(std::vector<T>{});
+    for (auto& a : pool) f(std::vector<T>{a});
+    for (auto& a : pool) for (auto& b : pool) f(std::vector<T>{a, b});
+  };
+  bool ok = true;
+  lists(rpool, [&](const std::vector<RT>& r) {
+    lists(epool, [&](const std::vector<ET>& e) {
+      for (int rm : {int(M_IS), int(M_STARTS), int(M_ENDS), int(M_INCLUDES), int(M_PERM)}) {
+        long my = id++;
+        if (!ok || (only_case >= 0 && my != only_case)) continue;
+        ST.evaluations++;
+        CN.mixed_element_type_cases++;
+        bool want = mixed_ref(rm, r, e), got = false;
+        std::vector<ET> named = e;   // a named, non-const container (the same object is used for the matcher and afterwards)
+        switch (rm) {
+          case M_IS: got = trompeloeil::param_matches(trompeloeil::range_is(named), std::cref(r)); break;
+          case M_STARTS: got = trompeloeil::param_matches(trompeloeil::range_starts_with(named), std::cref(r)); break;
+          case M_ENDS: got = trompeloeil::param_matches(trompeloeil::range_ends_with(named), std::cref(r)); break;
+          case M_INCLUDES: got = trompeloeil::param_matches(trompeloeil::range_includes(named), std::cref(r)); break;
+          default: got = trompeloeil::param_matches(trompeloeil::range_is_permutation(named), std::cref(r)); break;
+        }
+        if (got != want || named != e) {
+          std::ostringstream os;
+          os << "collection form with another element type: " << RM_NAME[rm] << "(std::vector<" << en << ">{";
+          for (auto& x : e) os << ' ' << +x;
+          os << " }) on std::vector<" << rn << ">{";
+          for (auto& x : r) os << ' ' << +x;
+          os << " }: accepted = " << got << ", element-wise == says " << want << (named != e ? "; the named container was changed" : "");
+          why = os.str() + "\nmixed " + std::to_string(pair_id) + " " + std::to_string(my);
+          ok = false;
+        }
+      }
+    });
+  });
+  return ok;
+}
+#pragma GCC diagnostic pop
+static bool mixed_all(std::string& why, int only_pair = -1, long only_case = -1) {
+  return mixed_pair<int, double>(0, {2, 3, -1}, {2.5, 2.0, 3.0, -1.0}, "int", "double", why, only_pair, only_case)
+      && mixed_pair<unsigned char, int>(1, {1, 44, 255}, {257, 1, 300, 255}, "unsigned char", "int", why, only_pair, only_case)
+      && mixed_pair<int, long long>(2, {3, 0, -1}, {(1LL << 32) + 3, 3, 1LL << 32, -1}, "int", "long long", why, only_pair, only_case)
+      && mixed_pair<float, double>(3, {0.1f, 2.5f}, {0.1, 2.5, static_cast<double>(0.1f)}, "float", "double", why, only_pair, only_case)
+      && mixed_pair<long long, int>(4, {5, 1LL << 32, -1}, {5, 0, -1}, "long long", "int", why, only_pair, only_case);
+}
+
 int do_replay(const std::string& path, bool verbose) {
   std::istringstream in(vc::read_file(path));
   std::string line;
@@ -805,6 +877,14 @@ int do_replay(const std::string& path, bool verbose) {
   bool have_m = false, have_f = false, have_k = false, have_r = false, have_e = false;
   while (std::getline(in, line)) {
     if (line.empty() || line[0] == '#') continue;
+    if (line.rfind("mixed ", 0) == 0) {
+      int pr = 0; long cs = 0;
+      sscanf(line.c_str() + 6, "%d %ld", &pr, &cs);
+      std::string why;
+      bool good = mixed_all(why, pr, cs);
+      if (verbose) printf("replay %s: collection with another element type %d %ld: %s\n%s\n", path.c_str(), pr, cs, good ? "passes" : "FAILS", why.c_str());
+      return good ? 0 : 1;
+    }
     std::istringstream ls(line);
     std::string key, t;
     ls >> key;
@@ -854,7 +934,20 @@ int main(int argc, char** argv) {
     return rc;
   }
   bool ok = true;
-  if (mode == "all" || mode == "enum") {
+  {
+    std::string why;
+    if (!mixed_all(why)) {
+      ok = false;
+      std::string path = A.faildir + "/r_fail." + A.prop + "." + std::to_string(getpid()) + ".txt";
+      std::string txt = "# engine=R prop=C11\n", last, l;
+      std::istringstream w(why);
+      while (std::getline(w, l)) { if (l.rfind("mixed ", 0) == 0) last = l; else txt += "# " + l + "\n"; }
+      vc::write_file(path, txt + last + "\n");
+      g_last_fail = path;
+      if (!A.has("quiet")) fprintf(stderr, "%s\n", why.c_str());
+    }
+  }
+  if (ok && (mode == "all" || mode == "enum")) {
     std::string why;
     ok = enumerate(max_range, max_list, why);
     if (ok) { ST.exhaustive = mode == "enum"; ST.extra_json["x_exhaustive_scope"] = "\"ranges<=" + std::to_string(max_range) + " lists<=" + std::to_string(max_list) + " complete\""; }
